@@ -98,6 +98,9 @@ def strategy_impl(draw, tier):
         "keep_coords": draw(st.sampled_from([None, True, False])),
         "data_name": draw(st.sampled_from(["phi", None])),
         "dtype": dtype,
+        "layout": draw(st.sampled_from(["C", "C", "F", "view"])),   # memory layout of the input
+        "carry_coords": draw(st.booleans()),                        # input carrying the dataset's coordinates or none
+        "decoy_first": draw(st.booleans()),                         # another Grid with other settings is built and used first
     }
 
 
@@ -167,7 +170,16 @@ def check(case, ctx):
             targets[n] = M.default_target(by_name[n]["positions"], case["data_pos"][n], by_name[n]["default_shifts"])
     exp, exp_dims, nontrivial = expected(case, by_name, rules, fills, targets)
 
-    da = build.data_array(case["values"], case["dims"], name=case.get("data_name", "phi")).astype(case.get("dtype", "float64"))
+    da = build.data_array(case["values"], case["dims"], name=case.get("data_name", "phi"), layout=case.get("layout", "C"))
+    if case.get("dtype", "float64") != "float64":
+        da = da.astype(case["dtype"])
+    if case.get("carry_coords"):
+        da = da.assign_coords({d: ds[d] for d in da.dims if d in ds.coords})
+    if case.get("decoy_first"):
+        # nothing may survive on module level from a Grid with other settings (same dataset, other rules) used before
+        decoy = build.make_grid(ds, axes, periodic=not bool(case["grid"]["periodic"]) if isinstance(case["grid"]["periodic"], bool) else True,
+                                boundary="extend", fill_value=-77.0)
+        getattr(decoy, case["op"])(da, list(case["op_axes"]), **call_kwargs(dict(case, to_spelling="dict", call_boundary=None, call_fill=None), targets))
     fn = getattr(grid, case["op"])
     kw = call_kwargs(case, case["to"])
     got = must_return(f"Grid.{case['op']}", fn, da, spell_axis(case["op_axes"], case["axis_spelling"]), **kw)
